@@ -53,6 +53,12 @@ func writeReplay(g *Gen, vdir, pid string, r *Result) ReplayInfo {
 			info.Reproduced = rep.Reproduced
 		}
 	}
+	if !info.Reproduced && r.Answer != "sat" && (r.Status == "unknown" || r.Status == "failed") {
+		if rep := searchScalarFailingInput(g, r, dir, base); rep != nil {
+			fmt.Fprintf(&sb, "\n--- search for a failing input on the real code ---\n%s\n", rep.Log)
+			info.Reproduced = rep.Reproduced
+		}
+	}
 	os.WriteFile(path, []byte(sb.String()), 0o644)
 	return info
 }
